@@ -33,7 +33,10 @@ def main():
         except BaseException as e:  # noqa: BLE001
             if isinstance(e, KeyboardInterrupt):
                 raise
-            results = [R("inconclusive", detail="harness-error: " + "".join(traceback.format_exception(e))[-1200:])]
+            tb = traceback.format_exception(e)
+            results = [R("inconclusive", detail="harness-error: " + tb[-1].strip()[:100] + " @ " +
+                         (tb[-2].strip().splitlines()[0][-60:] if len(tb) > 1 else ""))]
+            sys.stderr.write("".join(tb))
         for r in results:
             agg["evaluations"] += 1
             v = r["v"]
